@@ -16,6 +16,8 @@ mod props;
 mod refmodel;
 mod respgen;
 mod rng;
+#[cfg(any(feature = "native", feature = "rustls"))]
+mod tlsfix;
 mod transport;
 
 use framework::{ShardSpec, Tier};
